@@ -841,9 +841,7 @@ Qed.
 
 Lemma first_of_key_keyed i key o x : first_of_key i key o = Some (Some x) → ∃ e, i_alloc i !! x = Some e ∧ e_key e = key.
 Proof.
-  unfold first_of_key. destruct (by_key i key); destruct (o_first o) as [x0|]; try done.
-  destruct (i_alloc i !! x0) as [e|] eqn:He; [|done]. destruct (str_eqb_spec (e_key e) key); [|done].
-  intros [= <-]. by exists e.
+  intros H. apply first_of_key_some in H as (e & He & Hk & _). by exists e.
 Qed.
 
 Lemma bind_cloud w ns name uid (node : str) o fl w' r :
